@@ -60,6 +60,9 @@ def ao_program(rng, ops, pid, seed):
     pre = list(steps)
     if rng.random() < 0.5:
         pre.append({"cmd": "damage", "kind": rng.choice(["pack_data", "index_packs"]), "which": rng.randint(0, 3)})
+    if rng.random() < 0.6:
+        # an interrupted backup: packs no index file lists (a prune would remove them)
+        pre.append({"cmd": "backup", "files": gen.evolve(rng, gen.evolve(rng, files)), "fail_at": rng.randint(1, 4)})
     pre.append({"cmd": "config", "append_only": True})
     body = [op_step(rng, o, files, nsn) for o in ops]
     cfg = gen.rand_cfg(rng)
